@@ -8,6 +8,7 @@ import ZlModel.Scope
 import ZlModel.Generated.Tables
 import ZlModel.Generated.Registry
 import ZlModel.Registry
+import ZlModel.Codec
 open Zl Zl.Proto
 
 namespace Zl.Driver
@@ -161,11 +162,46 @@ def opFilter (fields : List String) : String :=
     | .ok r' => "ok " ++ regDump r' ++ "|same=" ++ b2s opts.empty ++ "|cfg=1|src-unchanged=1"
   | _ => "bad-op"
 
+
+/-! ### codec ops -/
+
+def opEnc (fields : List String) : String :=
+  match fields with
+  | [n] => "enc:" ++ hexOf (encodeStatus Generated.statusString Generated.statusStringDefault (n.toInt?.getD 0))
+  | _ => "bad-op"
+
+def opDec (fields : List String) : String :=
+  match fields with
+  | [h] =>
+    let data := (unhex h).getD ""
+    match decodeStatus (labelToStatus Generated.statusString Generated.statusStringDefault Generated.statusLabelTable) data with
+    | some s => "dec:" ++ toString s
+    | none => "dec-err"
+  | _ => "bad-op"
+
+def opSrc (fields : List String) : String :=
+  match fields with
+  | [h] => match decodeSource Generated.unmarshalCases ((unhex h).getD "") with
+    | some s => "src:" ++ hexOf s
+    | none => "src-err"
+  | _ => "bad-op"
+
+def opSrcList (fields : List String) : String :=
+  match fields with
+  | [h] => match sourceListFromString Generated.fromStringCases ((unhex h).getD "") with
+    | .ok l => "sl:" ++ ",".intercalate (l.map hexOf)
+    | .error _ => "sl-err"
+  | _ => "bad-op"
+
 def step (line : String) : String :=
   match line.splitOn "\t" with
   | "fw" :: rest => opFw rest
   | "filter" :: rest => opFilter rest
   | "register" :: rest => opRegister rest
+  | "enc" :: rest => opEnc rest
+  | "dec" :: rest => opDec rest
+  | "src" :: rest => opSrc rest
+  | "srclist" :: rest => opSrcList rest
   | _ => "bad-op"
 
 partial def loop (h : IO.FS.Stream) (out : IO.FS.Stream) : IO Unit := do
